@@ -119,6 +119,7 @@ class FakeGitHub:
         self.status = {}
         self.merges = []
         self.merge_attempts = 0
+        self.graphql_pages = 0
         for n in range(1, npr + 1):
             self.prs[n] = {'head': self.fresh('c'), 'labels': set(), 'review': 'REVIEW_REQUIRED', 'open': True,
                            'history': []}
@@ -158,10 +159,20 @@ class FakeGitHub:
             m = re.search(r'pullRequest \(number: (\d+)\)', data['query'])
             p = self.prs[int(m.group(1))]
             st = self.status.get(p['head'], {})
+            # the contexts connection is served in pages exactly as the query asks: `first: N[, after: "<cursor>"]`
+            q = data['query']
+            mf = re.search(r'contexts \(first: (\d+)(?:, after: "([^"]*)")?\)', q)
+            if not mf:
+                raise HarnessError('GraphQL query no longer pages the status contexts with first/after')
+            first, after = int(mf.group(1)), mf.group(2)
+            allctx = sorted(st.items())
+            lo = 0 if after is None else int(after)
+            hi = min(len(allctx), lo + first)
+            self.graphql_pages += 1
             nodes = [{'__typename': 'StatusContext', 'context': c, 'state': self._val(s), 'isRequired': True}
-                     for c, s in sorted(st.items())]
-            rollup = None if not nodes else {'contexts': {'nodes': nodes,
-                                                          'pageInfo': {'hasNextPage': False, 'endCursor': None}}}
+                     for c, s in allctx[lo:hi]]
+            rollup = None if not allctx else {'contexts': {'nodes': nodes, 'pageInfo': {
+                'hasNextPage': hi < len(allctx), 'endCursor': str(hi)}}}
             return {'data': {'repository': {'pullRequest': {
                 'reviewDecision': self._val(p['review']),
                 'commits': {'nodes': [{'commit': {'statusCheckRollup': rollup}}]}}}}}
@@ -201,6 +212,15 @@ class _BuildConfiguration:
 
     def build(self, batch, code, scope=None):
         pass
+
+
+def flood(gh, n, m):
+    """Other CI systems have reported `m` further required contexts chk00… on PR n's head commit: all SUCCESS except
+    possibly one, at the symbolic position flood_pos (== m: none) with the symbolic state flood_state."""
+    pos, bad = z3.Int('flood_pos'), z3.Int('flood_state')
+    st = gh.status.setdefault(gh.prs[n]['head'], {})
+    for j in range(m):
+        st[f'chk{j:02d}'] = SEnum(z3.If(pos == j, bad, z3.IntVal(0)), STATES)
 
 
 class World:
@@ -259,9 +279,13 @@ class World:
 EVENTS = ['push', 'review', 'label', 'status', 'batch_done', 'target_move', 'poll']
 
 
-async def history(npr, k, events=EVENTS):
+async def history(npr, k, events=EVENTS, flood_sizes=None):
     """Initial full update, then k events, each a solver choice, each followed by the webhook-triggered update."""
     w = World(npr)
+    if flood_sizes:
+        m = choose('flood_m', list(flood_sizes))
+        w.flood_m = m
+        flood(w.gh, 1, m)
     for n, p in sorted(w.gh.prs.items()):
         p['review'] = choose(f'init_review_{n}', ['REVIEW_REQUIRED', 'APPROVED'])
     await w.ci('full')
@@ -350,7 +374,11 @@ def domain_constraints(k):
     return c
 
 
-def explore_history(npr, k, constraints=(), events=EVENTS, max_paths=400000):
-    ex = natsym.Explorer(constraints=domain_constraints(k) + list(constraints), max_paths=max_paths, max_decisions=2000)
-    outs = ex.run(lambda: history(npr, k, events))
+def explore_history(npr, k, constraints=(), events=EVENTS, max_paths=400000, flood_sizes=None):
+    cons = domain_constraints(k) + list(constraints)
+    if flood_sizes:
+        pos, bad = z3.Int('flood_pos'), z3.Int('flood_state')
+        cons += [pos >= 0, pos <= max(flood_sizes), bad >= 0, bad < len(STATES)]
+    ex = natsym.Explorer(constraints=cons, max_paths=max_paths, max_decisions=4000)
+    outs = ex.run(lambda: history(npr, k, events, flood_sizes))
     return outs, ex
